@@ -20,6 +20,7 @@ func main() {
 	keep := flag.Bool("keep", false, "keep query files")
 	timeout := flag.Float64("timeout", 10, "solver timeout per obligation (s)")
 	own := flag.Bool("ownership", false, "check guarded-by ownership clauses")
+	seqFlag := flag.Bool("seq", false, "dev mode: sequential reading (func@seq contracts)")
 	kindsFlag := flag.String("kinds", "", "dev mode: keep only obligations of these kinds (comma separated)")
 	verif := flag.String("verif", "/verif", "verif root")
 	replayFile := flag.String("replay", "", "replay a recorded violation file")
@@ -33,6 +34,7 @@ func main() {
 	e := newEngine(*repo)
 	e.solverTimeout = *timeout
 	e.checkOwnership = *own
+	e.seqMode = *seqFlag
 	tmp, _ := os.MkdirTemp("", "govc")
 	e.tmpdir = tmp
 	if !*keep {
